@@ -11,8 +11,9 @@ CONSTANTS
   Countdowns = {%(cds)s}
   MaxAllocs = %(maxallocs)d
   MaxPending = %(maxpending)d
-INVARIANTS TypeOK ExactlyDesignated ReportsUndone PendingLive ClearRestores CountdownFires CountdownNotEarly NotOomRestores
-PROPERTIES OomMeansNull
+  MaxCount = %(maxcount)d
+INVARIANTS TypeOK ExactlyDesignated ReportsUndone PendingLive ClearRestores CountdownFires CountdownNotEarly NotOomRestores CountResetZeroes
+PROPERTIES OomMeansNull CountsCAllocs StatsLeaveInjection
 CHECK_DEADLOCK FALSE
 """
 GEN = """SPECIFICATION GSpec
@@ -22,9 +23,11 @@ CONSTANTS
   Countdowns = {%(cds)s}
   MaxAllocs = 1000000
   MaxPending = %(maxpending)d
+  MaxCount = 1000000
   D = %(D)d
   Vias = {%(vias)s}
   Fns = {%(fns)s}
+  Ops = {%(ops)s}
 INVARIANTS Dump
 CHECK_DEADLOCK FALSE
 """
@@ -35,16 +38,22 @@ CONSTANTS
   Countdowns = {1}
   MaxAllocs = 1
   MaxPending = 1
+  MaxCount = 1
 %(tail)s
 CHECK_DEADLOCK FALSE
 """
 FIELDS = ["op", "via", "loc", "n"]
 CF = ["malloc", "calloc", "strdup", "strndup"]
+FOPS = ["failnum", "failat", "alloc", "checkdone", "clear"]            # the failable allocator
+COPS = ["countdown", "setoom", "setnotoom", "c"]                        # the C-level injection
+SOPS = ["countreset", "getcount"]                                       # the malloc statistics that count the same C allocations
+q = lambda names: ", ".join('"%s"' % x for x in names)
 
 
 def random_exec(rng, nops, nloc=4):
     """Seeded random workload: designations (global and by location, several per location, some coinciding, some in the
-    past), allocations mixing locations and doors, countdowns of every small value, checks and clears."""
+    past), allocations mixing locations and doors, countdowns of every small value, checks and clears, and the malloc
+    statistics read / reset in between."""
     ex = []
     for _ in range(nops):
         r = rng.random()
@@ -53,8 +62,12 @@ def random_exec(rng, nops, nloc=4):
             ex.append(["failnum", "", 0, rng.choice([0, 1, 1, 2, 2, 3, 4, 6, 9])])
         elif r < 0.24:
             ex.append(["failat", "", loc, rng.choice([0, 1, 1, 2, 2, 3, 4])])
-        elif r < 0.60:
+        elif r < 0.53:
             ex.append(["alloc", rng.choice(["direct", "new", "newarray"]), loc, 0])
+        elif r < 0.57:
+            ex.append(["countreset", "", 0, 0])
+        elif r < 0.60:
+            ex.append(["getcount", "", 0, 0])
         elif r < 0.78:
             ex.append(["c", rng.choice(CF), loc, 0])
         elif r < 0.83:
@@ -73,7 +86,7 @@ def random_exec(rng, nops, nloc=4):
 def history_class(ex, idx, loc):
     """The class of the history before call idx (an allocation at loc), which the key of a divergence names: how many
     location designations were placed since the last clear for this location / for other locations, how many global
-    ones, and the C-level injection in force."""
+    ones, the C-level injection in force, and whether the malloc statistics were reset while it was in force."""
     here = elsewhere = num = 0
     cd = ""
     for ln in ex[:idx]:
@@ -93,6 +106,8 @@ def history_class(ex, idx, loc):
             cd = "oom"
         elif op == "setnotoom":
             cd = ""
+        elif op == "countreset" and cd:
+            cd = cd.split("+")[0] + "+countreset"
     return here, elsewhere, num, cd
 
 
@@ -121,8 +136,8 @@ def run(ctx):
         return ctx.finish("replay of one recorded execution", 1)
 
     # ---- leg 1: the specification satisfies the property (exhaustive, small constants)
-    mc = ({"locs": "1, 2", "ns": "1, 2", "cds": "0, 1, 2", "maxallocs": 3, "maxpending": 2} if quick else
-          {"locs": "1, 2, 3", "ns": "1, 2, 3", "cds": "0, 1, 2", "maxallocs": 4, "maxpending": 2})
+    mc = ({"locs": "1, 2", "ns": "1, 2", "cds": "0, 1, 2", "maxallocs": 3, "maxpending": 2, "maxcount": 2} if quick else
+          {"locs": "1, 2, 3", "ns": "1, 2, 3", "cds": "0, 1, 2", "maxallocs": 4, "maxpending": 2, "maxcount": 2})
     r = ctx.model_check("FailAlloc", ctx.write_cfg("MC_FailAlloc", MC % mc), workers=8, timeout=1800, heap="12g")
     ctx.notes["model"] = {"distinct_states": r.distinct, "depth": r.depth, "constants": mc}
 
@@ -132,10 +147,14 @@ def run(ctx):
     allf = ", ".join('"%s"' % f for f in CF)
     gens = [
         # every workload of D calls on the failable allocator: each allocation point in turn designated
-        ("bfs-failable", {"locs": "1, 2", "ns": "1, 2", "cds": "1", "maxpending": 2, "D": 4 if quick else 5, "vias": '"direct"', "fns": ""}, None, None),
+        ("bfs-failable", {"locs": "1, 2", "ns": "1, 2", "cds": "1", "maxpending": 2, "D": 4 if quick else 5, "vias": '"direct"', "fns": "", "ops": q(FOPS)}, None, None),
         # the C interface with the failable allocator underneath
-        ("bfs-c", {"locs": "1", "ns": "2", "cds": "0, 1, 2", "maxpending": 1, "D": 3 if quick else 4, "vias": '"new"', "fns": '"malloc", "strdup"'}, None, None),
-        ("sim", {"locs": "1, 2, 3", "ns": "0, 1, 2, 3, 4", "cds": "0, 1, 2, 3", "maxpending": 4, "D": 30, "vias": allv, "fns": allf},
+        ("bfs-c", {"locs": "1", "ns": "2", "cds": "0, 1, 2", "maxpending": 1, "D": 3 if quick else 4, "vias": '"new"', "fns": '"malloc", "strdup"',
+                   "ops": q(FOPS + COPS)}, None, None),
+        # the C-level injection interleaved with the malloc statistics that count the same allocations: every history of D calls
+        ("bfs-cstat", {"locs": "1", "ns": "1", "cds": "1, 2, 3", "maxpending": 1, "D": 4 if quick else 5, "vias": '"direct"', "fns": '"malloc", "calloc"',
+                       "ops": q(COPS + SOPS)}, None, None),
+        ("sim", {"locs": "1, 2, 3", "ns": "0, 1, 2, 3, 4", "cds": "0, 1, 2, 3", "maxpending": 4, "D": 30, "vias": allv, "fns": allf, "ops": q(FOPS + COPS + SOPS)},
          25 if quick else 250, 36),
     ]
     for (lab, gen, sim, depth) in gens:
@@ -160,11 +179,13 @@ def run(ctx):
         nontrivial.add(json.dumps(e))
     return ctx.finish(
         rule="executions = TLC-generated behaviours of FailAlloc (exhaustive to depth D: failable allocator over 2 locations x n<=2; C interface "
-             "with countdowns 0..2 over malloc/strdup; simulation to depth 30 over 3 locations, n<=4, all doors and C functions) plus seeded "
-             "random workloads, each run on the real FailableMemoryAllocator / cpputest_malloc_* under ASan/UBSan; distinct = distinct call "
+             "with countdowns 0..2 over malloc/strdup; C-level injection x malloc statistics (count reset / get count) with countdowns -1,1..3 over malloc/calloc; simulation to depth 30 over 3 locations, n<=4, all doors and C functions) plus seeded "
+             "random workloads (both with the statistics calls interleaved), each run on the real FailableMemoryAllocator / cpputest_malloc_* under ASan/UBSan; distinct = distinct call "
              "sequences; non-trivial = contains an injection and an allocation",
         distinct_nontrivial=len(nontrivial), exhaustive=False,
         assumptions=["a location designation counts the allocations made at its location from the moment it is placed; a global designation counts from the last clear",
                      "when several pending designations name the same allocation the specification accepts any non-empty subset of them being used up",
                      "while the C interface is out of memory the test's malloc allocator (the failable one) is not consulted",
+                     "reading or resetting the malloc statistics (cpputest_malloc_get_count / cpputest_malloc_count_reset) does not move a running countdown; the "
+                     "value of the counter is logged and predicted as a diagnostic only (the statement does not say what it counts)",
                      "only NULL / non-NULL (std::bad_alloc for new) and the outcome of checkAllFailedAllocsWereDone are compared"])
